@@ -47,9 +47,11 @@ Proof.
     + assert (Hl : k < length (aq_q c x)) by (apply nth_error_Some; rewrite En; discriminate).
       destruct (ierr c x); inv_some.
       * cbn. unfold upd. rewrite !Nat.eqb_refl. rewrite Ei. simpl. lia.
-      * match goal with |- context [deliver ?a ?p ?b ?k ?e ?cc] =>
-          destruct (deliver_aq a p b k e cc) as (E1 & E2 & E3); rewrite E1, E2, E3 end.
-        cbn. unfold upd. rewrite !Nat.eqb_refl. rewrite Ei. simpl. lia.
+      * match goal with |- context [if ?b then _ else _] => destruct b end;
+          cbn [ipc aq_q aq_ph set_aq_ph];
+          match goal with |- context [deliver ?a ?p ?b ?k ?e ?cc] =>
+            destruct (deliver_aq a p b k e cc) as (E1 & E2 & E3); rewrite ?E1, ?E2, ?E3 end;
+          cbn; unfold upd; rewrite !Nat.eqb_refl; rewrite Ei; simpl; lia.
     + inv_some. cbn. unfold upd. rewrite !Nat.eqb_refl. simpl. lia.
   - inv_some. cbn. unfold upd. rewrite !Nat.eqb_refl. lia.
   - inv_some. cbn -[set_nth has_ongoing]. unfold all_free.
